@@ -137,4 +137,29 @@ def runBlocking (op : Op) : Result :=
       | (.exc e, s3) => ⟨.failed e, s3.trace, []⟩
       | (.ok kvs2, s3) => ⟨.ok (.obj (kvs1 ++ (op.key, v) :: kvs2)) s3.errors, s3.trace, []⟩
 
+
+/-! ### the same under `execute_fields_serially` (mutations): the failing list field is the FIRST root field -/
+
+/-- `_next` pops the list field; `resolve_field` returns None at once (field error recorded, the earlier items' Futures
+    orphaned), `cb` runs inline and the serial chain carries on with `after` (`op.before` is not used: it must be empty —
+    a failing field behind a deferred one would have to travel inside `Cont.serialCb`'s `args : Flds`). -/
+def executeSerial (op : Op) (s : ExecSt) : Res Node × ExecSt × List Node :=
+  match resolveListField op.path op.items s with
+  | (.exc e, s1, o) => (.exc e, s1, o)
+  | (.ok (.val (.data v)), s1, o) =>
+    match serialNext [] [(op.key, v)] op.after s1 with
+    | (.exc e, s2) => (.exc e, s2, o)
+    | (.ok n, s2) =>
+      let (r, s3) := mapValue applyCont (unwrapValue n) .onFinish s2
+      (r, s3, o)
+  | (.ok _, s1, o) => (.ok (.val .junk), s1, o)
+
+/-- the generic executor, mutation `{ key … after }`, thread-pool runtime, under a schedule -/
+def runAsyncSerial (op : Op) (schedule : List Nat) : Result :=
+  match executeSerial op {} with
+  | (.exc e, s, _) => ⟨.failed e, s.trace, []⟩
+  | (.ok top, s, o) =>
+    let r := runSched top o s [] schedule
+    ⟨outcomeOf r.top r.st, r.st.trace, r.sizes⟩
+
 end PyGql.AsyncExec.E2
